@@ -107,7 +107,11 @@ def case_strategy(draw, ctx):
         spec["rp_box"] = {"size": size, "offset": off, "eps": draw(st.sampled_from([1.7, 3.0]))}
     # and, in half of the scenes, a box placed by ABSOLUTE real coordinates (RealCoordinateConstraint): in a policy grid
     # these refer to the documented origin (domain centred on 0), in the explicit grids to their own edge arrays
-    if draw(st.booleans()):
+    # the policy grids' documented `center` (default 0): a third of the scenes shift the whole domain; every description
+    # is shifted alike (explicit grids by construction of their edge arrays)
+    if draw(st.integers(0, 2)) > 0:
+        spec["center"] = [draw(st.sampled_from([3.0, -7.5, 40.0, -1.0])) * spec["d"] for _ in range(3)]
+    if draw(st.integers(0, 3)) > 0:
         lo, hi = draw(scenes.box_strategy(shape))
         spec["abs_box"] = {"lo": lo, "hi": hi, "eps": draw(st.sampled_from([2.2, 4.0]))}
     return {"scene": spec, "variants": variants}
@@ -130,7 +134,8 @@ def _build(spec, lane, variant):
         s["grid"] = {"kind": "rect", "widths": [[1.0] * n for n in shape]}
     elif variant == "rectc":
         s["grid"] = {"kind": "uniform"}  # index-space constraints; the grid itself is overridden below
-        ed = [(-n / 2.0) * d + d * np.arange(n + 1, dtype=np.float64) for n in shape]
+        cen = spec.get("center", [0.0, 0.0, 0.0])
+        ed = [cen[a] + (-n / 2.0) * d + d * np.arange(n + 1, dtype=np.float64) for a, n in enumerate(shape)]
         extra = {"grid": fdtdx.RectilinearGrid(x_edges=ed[0], y_edges=ed[1], z_edges=ed[2])}
     else:
         raise ValueError(variant)
@@ -144,7 +149,8 @@ def _build(spec, lane, variant):
     if spec.get("abs_box"):
         ab = spec["abs_box"]
         # edge i of axis a: policy grids and the centred explicit grid are centred on 0, the rect0 grid starts at 0
-        org = [0.0 if variant == "rect0" else -shape[a] * d / 2.0 for a in range(3)]
+        cen = spec.get("center", [0.0, 0.0, 0.0])
+        org = [0.0 if variant == "rect0" else cen[a] - shape[a] * d / 2.0 for a in range(3)]
         box = fdtdx.UniformMaterialObject(name="absbox", material=fdtdx.Material(permittivity=ab["eps"]), placement_order=6)
         objs.append(box)
         cons.append(fdtdx.RealCoordinateConstraint(
